@@ -12,7 +12,11 @@ def c08_jobs(tier):
           job('kernels-plain-t8', 'c08', 'plain', threads=8, args=['--sub', 'product_random,misc,pointwise_random,spectral_radius']),
           job('kernels-omp-t17', 'c08', 'plain-omp', threads=17, args=['--sub', 'product_random,misc,pointwise_random,spectral_radius'], exclusive=True),
           job('kernels-tsan-t4', 'c08', 'tsan', threads=4, args=['--sub', 'product_random,misc,transpose_adjoint,pointwise_random,spectral_radius']),
-          job('kernels-tsan-t17', 'c08', 'tsan', threads=17, args=['--sub', 'product_random,misc'], exclusive=True)]
+          job('kernels-tsan-t17', 'c08', 'tsan', threads=17, args=['--sub', 'product_random,misc'], exclusive=True),
+          # teams smaller than omp_get_max_threads(): thread limit below the configured count, and calls from inside an enclosing
+          # parallel region (added after a seeded change that laid out a parallel prefix sum by omp_get_max_threads() was missed)
+          job('kernels-plain-t8-limit3', 'c08', 'plain', threads=8, env={'OMP_THREAD_LIMIT': '3'}, args=['--sub', 'product_random,misc,transpose_adjoint,pointwise_random']),
+          job('kernels-plain-t8-nested', 'c08', 'plain', threads=8, args=['--sub', 'product_random,misc,transpose_adjoint,pointwise_random', '--nested=1'])]
     if not q:
         js += [job('kernels-plain-t2', 'c08', 'plain', threads=2, args=['--sub', 'product_random,misc,transpose_adjoint,pointwise_random,spectral_radius']),
                job('kernels-omp-t24', 'c08', 'plain-omp', threads=24, args=['--sub', 'product_random,misc,pointwise_random,spectral_radius'], exclusive=True),
